@@ -18,6 +18,7 @@ import (
 	"fmt"
 	"io"
 	"os"
+	"os/exec"
 	"runtime"
 	"sort"
 	"strconv"
@@ -62,9 +63,14 @@ type dbgRec struct {
 	side string
 	t0   int64
 	log  *sentLog
+	// onHandshakeComplete, if set, runs on the run-loop goroutine while it completes the handshake
+	onHandshakeComplete func()
 }
 
 func (r dbgRec) RecordEvent(ev qlogwriter.Event) {
+	if _, ok := ev.(qlog.ALPNInformation); ok && r.onHandshakeComplete != nil {
+		r.onHandshakeComplete()
+	}
 	if ps, ok := ev.(qlog.PacketSent); ok {
 		var fr []string
 		kind := 0
@@ -121,8 +127,8 @@ func genSet(r *vh.Rand, p int) string {
 var idleChoices = []int64{100, 150, 250, 400, 700, 1000, 2000, 3000, 5000, 10000, 30000}
 
 func (rn *runner) GenOp(r *vh.Rand, i int) string {
-	causes := []string{"capp", "sapp", "idle", "kalive", "hsdead", "hsstall", "reset", "fatalc", "fatals", "tclosec", "tcloses", "dialcancel"}
-	cause := causes[r.Pick(16, 16, 18, 8, 4, 4, 8, 6, 6, 5, 5, 8)]
+	causes := []string{"capp", "sapp", "idle", "kalive", "hsdead", "hsstall", "reset", "fatalc", "fatals", "tclosec", "tcloses", "dialcancel", "cappx"}
+	cause := causes[r.Pick(16, 16, 18, 8, 4, 4, 8, 6, 6, 5, 5, 8, 2)]
 	timing := r.Pick(15, 55, 30)
 	idle := idleChoices[r.Intn(len(idleChoices))]
 	sidle := idleChoices[r.Intn(len(idleChoices))]
@@ -153,8 +159,17 @@ func (rn *runner) GenOp(r *vh.Rand, i int) string {
 	if cause == "fatalc" || cause == "fatals" {
 		code = r.Range(0, 2)
 	}
-	return fmt.Sprintf("scn cause=%s timing=%d cb=%s sb=%s idle=%d sidle=%d ka=%d kaside=%s drop=%d rtt=%d code=%d at=%d",
-		cause, timing, genSet(r, 55), genSet(r, 55), idle, sidle, ka, []string{"c", "s", "b"}[r.Intn(3)], drop, rtt, code, at)
+	// cappx: the application closes at the very instant the handshake completes (Initial, Handshake and 1-RTT
+	// keys all present); the packet size matters for the coalesced CONNECTION_CLOSE
+	ips := int64(0)
+	if cause == "cappx" {
+		ips = []int64{1200, 1252, 1350, 1436, 1437, 1452}[r.Intn(6)]
+	} else if r.Chance(10) {
+		// sizes that can hit the known CONNECTION_CLOSE overflow (>= 1437) only in the isolated scenario
+		ips = []int64{1200, 1252, 1350, 1436}[r.Intn(4)]
+	}
+	return fmt.Sprintf("scn cause=%s timing=%d cb=%s sb=%s idle=%d sidle=%d ka=%d kaside=%s drop=%d rtt=%d code=%d at=%d ips=%d",
+		cause, timing, genSet(r, 55), genSet(r, 55), idle, sidle, ka, []string{"c", "s", "b"}[r.Intn(3)], drop, rtt, code, at, ips)
 }
 
 // ---------------------------------------------------------------- scenario
@@ -220,6 +235,7 @@ type params struct {
 	rtt                            time.Duration
 	code                           uint64
 	at                             time.Duration
+	ips                            int
 }
 
 func parseOp(op string) (p params, ok bool) {
@@ -241,7 +257,7 @@ func parseOp(op string) (p params, ok bool) {
 		return strings.Split(kv[k], ",")
 	}
 	p = params{cause: kv["cause"], timing: int(vh.Atoi64(kv["timing"])), cb: set("cb"), sb: set("sb"), idle: ms("idle"), sidle: ms("sidle"),
-		ka: ms("ka"), kaside: kv["kaside"], drop: int(vh.Atoi64(kv["drop"])), rtt: ms("rtt"), code: uint64(vh.Atoi64(kv["code"])), at: ms("at")}
+		ka: ms("ka"), kaside: kv["kaside"], drop: int(vh.Atoi64(kv["drop"])), rtt: ms("rtt"), code: uint64(vh.Atoi64(kv["code"])), at: ms("at"), ips: int(vh.Atoi64(kv["ips"]))}
 	if p.cause == "" || p.idle == 0 || p.sidle == 0 || p.rtt == 0 {
 		return p, false
 	}
@@ -436,15 +452,25 @@ func runScenario(p params, res *result) {
 	}
 	cconf := baseConf(p.idle, cka)
 	sconf := baseConf(p.sidle, ska)
+	if p.ips > 0 {
+		cconf.InitialPacketSize = uint16(p.ips)
+	}
 	if p.cause == "hsdead" || p.cause == "hsstall" {
 		cconf.HandshakeIdleTimeout = p.idle // reuse the idle parameter as the handshake idle timeout
 		sconf.HandshakeIdleTimeout = p.sidle
 	}
 	clog, slog := &sentLog{}, &sentLog{}
+	var clientTr *quic.Transport
 	{
 		t0 := quic.VerifMonoNow()
-		cconf.Tracer = func(context.Context, bool, quic.ConnectionID) qlogwriter.Trace { return dbgTrace{dbgRec{"c", t0, clog}} }
-		sconf.Tracer = func(context.Context, bool, quic.ConnectionID) qlogwriter.Trace { return dbgTrace{dbgRec{"s", t0, slog}} }
+		cconf.Tracer = func(context.Context, bool, quic.ConnectionID) qlogwriter.Trace {
+			return dbgTrace{dbgRec{"c", t0, clog, func() {
+				if p.cause == "cappx" && clientTr != nil {
+					clientTr.VerifCloseLocalAll(p.code)
+				}
+			}}}
+		}
+		sconf.Tracer = func(context.Context, bool, quic.ConnectionID) qlogwriter.Trace { return dbgTrace{dbgRec{"s", t0, slog, nil}} }
 	}
 	env, err := e2e.Start(e2e.Setup{RTT: p.rtt, ClientConf: cconf})
 	if err != nil {
@@ -452,6 +478,7 @@ func runScenario(p params, res *result) {
 		return
 	}
 	defer env.Close()
+	clientTr = env.ClientTr
 	// replace the server by one with a fixed stateless-reset key
 	env.Listener.Close()
 	env.ServerTr.Close()
@@ -584,6 +611,25 @@ func runScenario(p params, res *result) {
 		ln.Close()
 	}
 
+	if p.cause == "cappx" {
+		// closeLocal was recorded while the handshake completed: the connection ends by itself
+		waitDone(cl, 60*time.Second)
+		res.add("c.cause", quic.VerifCanonErr(cl.cause))
+		svMu.Lock()
+		sconn := sv.conn
+		svMu.Unlock()
+		if sconn != nil {
+			sv.watch()
+			waitDone(sv, 60*time.Second)
+			res.add("s.cause", quic.VerifCanonErr(sv.cause))
+		} else {
+			res.add("s.cause", "noconn")
+		}
+		res.add("c.later", cl.later())
+		time.Sleep(45 * time.Second)
+		finish()
+		return
+	}
 	if p.cause == "dialcancel" || ((p.cause == "tclosec" || p.cause == "tcloses") && p.timing == 0) {
 		// the event came too late for the dial: close normally
 		if p.cause == "dialcancel" {
@@ -839,8 +885,11 @@ func leakedGoroutines() []string {
 				break
 			}
 		}
-		if i := strings.IndexByte(fn, '('); i > 0 {
+		if i := strings.LastIndexByte(fn, '('); i > 0 {
 			fn = fn[:i]
+		}
+		if i := strings.LastIndexByte(fn, '/'); i >= 0 {
+			fn = fn[i+1:]
 		}
 		out = append(out, fn)
 	}
@@ -865,7 +914,65 @@ func watchdog() {
 	}
 }
 
+// A panic on a connection's run-loop goroutine cannot be trapped in this process: scenarios that may hit one
+// run in a child process (this test binary, TestOne) and a dead child is reported as `panic=<class>`.
+func execIsolated(op string) string {
+	cmd := exec.Command(os.Args[0], "-test.run", "^TestOne$", "-test.count=1", "-test.timeout", "120s")
+	cmd.Env = append(os.Environ(), "VH_ONE_OP="+op, "VH_MODE=", "VH_OUT=")
+	out, err := cmd.CombinedOutput()
+	txt := string(out)
+	if i := strings.Index(txt, "RESULT "); i >= 0 {
+		line := txt[i+len("RESULT "):]
+		if j := strings.IndexByte(line, '\n'); j >= 0 {
+			line = line[:j]
+		}
+		return line + " panic=0"
+	}
+	cls := "other"
+	switch {
+	case strings.Contains(txt, "slice bounds out of range"):
+		cls = "slice_bounds"
+	case strings.Contains(txt, "nil pointer dereference"):
+		cls = "nil_deref"
+	case strings.Contains(txt, "panic:"):
+		cls = "panic"
+	case err != nil:
+		cls = "exit"
+	}
+	where := "-"
+	for _, l := range strings.Split(txt, "\n") {
+		if strings.Contains(l, "uquic.") && !strings.Contains(l, "verifharness") && strings.Contains(l, "(") {
+			where = strings.TrimSpace(l)
+			if k := strings.LastIndexByte(where, '('); k > 0 {
+				where = where[:k]
+			}
+			if k := strings.LastIndexByte(where, '/'); k >= 0 {
+				where = where[k+1:]
+			}
+			break
+		}
+	}
+	return "panic=" + cls + " where=" + strings.ReplaceAll(where, " ", "_")
+}
+
+func TestOne(t *testing.T) {
+	op := os.Getenv("VH_ONE_OP")
+	if op == "" {
+		t.Skip("VH_ONE_OP not set")
+	}
+	theT = t
+	go watchdog()
+	fmt.Printf("RESULT %s\n", (&runner{}).execHere(op))
+}
+
 func (rn *runner) Exec(op string) string {
+	if p, ok := parseOp(op); ok && p.cause == "cappx" && os.Getenv("VH_ONE_OP") == "" {
+		return execIsolated(op)
+	}
+	return rn.execHere(op)
+}
+
+func (rn *runner) execHere(op string) string {
 	p, ok := parseOp(op)
 	if !ok {
 		return "skip"
@@ -878,7 +985,7 @@ func (rn *runner) Exec(op string) string {
 	func() {
 		defer func() {
 			if e := recover(); e != nil {
-				if s, ok := e.(string); ok && strings.Contains(s, "deadlock") {
+				if msg := fmt.Sprint(e); strings.Contains(msg, "deadlock") && strings.Contains(msg, "goroutines") {
 					leak = 1
 					return
 				}
